@@ -116,7 +116,8 @@ class LRUCache(Cache):
         Iterates over keys of the cache. From the most recently used to the least recently used.
 
         """
-        return (d[0] for d in self.list)
+        # snapshot: lookups done by the mapping views reorder the list while it is iterated
+        return iter([d[0] for d in self.list])
 
     def __setitem__(self, k: _KT, v: _VT):
         """
